@@ -576,3 +576,20 @@ package lang
 //@   check none
 //@   at call (*funcID).Deregister#* assert arg1 == p.Id
 //@   ensures called("(*funcID).Deregister")
+
+// compile: the `runmode` directive at the head of a block selects exactly the documented mode for the
+// scope (and every process of the block gets that mode).
+//@ func compile [C05]
+//@   check none
+//@   scope functional
+//@   at store RunMode#1 assert imp(ret("strings.Join#1") == "unsafe function", parent.Scope.RunMode == runmode.FunctionUnsafe)
+//@   at store RunMode#1 assert imp(ret("strings.Join#1") == "try function", parent.Scope.RunMode == runmode.FunctionTry)
+//@   at store RunMode#1 assert imp(ret("strings.Join#1") == "trypipe function", parent.Scope.RunMode == runmode.FunctionTryPipe)
+//@   at store RunMode#1 assert imp(ret("strings.Join#1") == "tryerr function", parent.Scope.RunMode == runmode.FunctionTryErr)
+//@   at store RunMode#1 assert imp(ret("strings.Join#1") == "trypipeerr function", parent.Scope.RunMode == runmode.FunctionTryPipeErr)
+//@   at store RunMode#1 assert imp(ret("strings.Join#1") == "unsafe module", parent.Scope.RunMode == runmode.ModuleUnsafe)
+//@   at store RunMode#1 assert imp(ret("strings.Join#1") == "try module", parent.Scope.RunMode == runmode.ModuleTry)
+//@   at store RunMode#1 assert imp(ret("strings.Join#1") == "trypipe module", parent.Scope.RunMode == runmode.ModuleTryPipe)
+//@   at store RunMode#1 assert imp(ret("strings.Join#1") == "tryerr module", parent.Scope.RunMode == runmode.ModuleTryErr)
+//@   at store RunMode#1 assert imp(ret("strings.Join#1") == "trypipeerr module", parent.Scope.RunMode == runmode.ModuleTryPipeErr)
+//@   at store RunMode#2 assert procs[$idx].RunMode == rm
